@@ -139,6 +139,9 @@ impl SemanticState {
 
         for definition in &module.definitions {
             let new_path = path.join(definition.name.as_str().into());
+            if self.type_registry.get(&new_path).is_some() {
+                anyhow::bail!("the item `{new_path}` is defined more than once");
+            }
             self.add_item(ItemDefinition {
                 visibility: definition.visibility.into(),
                 path: new_path,
@@ -180,6 +183,9 @@ impl SemanticState {
             })?;
 
             let extern_path = path.join(extern_path.as_str().into());
+            if self.type_registry.get(&extern_path).is_some() {
+                anyhow::bail!("the item `{extern_path}` is defined more than once");
+            }
 
             self.add_item(ItemDefinition {
                 visibility: Visibility::Public,
